@@ -115,6 +115,9 @@ def judge_linear(dep, rec, info, L, AS, probes):
             probe("observation_lost:posterior-map")
             return v
         key = post[-1]["key"]
+        if any(t["kind"] == "unknown" for t in post[-1]["tasks"]):
+            probe("observation_lost:task-layout-unknown")
+            return v
         ordered = []
         task_rows = []
         for i, t in enumerate(post[-1]["tasks"]):
